@@ -112,17 +112,26 @@ def c12_scripts(seed, n):
                     if j == 1:
                         m = int(base[0].split()[3]) ^ (1 << r.pick([0, 1, 7, 8, 9, 10, 11, 11, 11]))
                     hists.append(["T 0 new %d" % m] + base[1:])
+        obj = None
+        if r.chance(1, 4):
+            # one manipulator object streamed to all the terminals of the group
+            obj = r.pick(["O 7 title 6869", "O 7 title c39c", "O 7 move 0 0", "O 7 hide", "O 7 mouse 1", "O 7 erase"])
+            hists = [h + (["T 0 use 7"] if h and h[0].startswith("T 0 new") and not (obj.startswith("O 7 move") and not any(l.startswith("T 0 size") for l in h)) else []) for h in hists]
         cid += 1
         group_id = cid
         # solo runs: one CASE per history, ids relabelled to j
         for j, ls in enumerate(hists):
             solo.append("CASE %d.%d" % (group_id, j))
+            if obj:
+                solo.append(obj)
             for l in ls:
                 solo.append(relabel_all(l, j))
             solo.append("END")
         # interleaved: creation order preserved per history, random merge
         idx = [0] * k
         inter.append("CASE %d" % group_id)
+        if obj:
+            inter.append(obj)
         remaining = sum(len(h) for h in hists)
         while remaining:
             j = r.below(k)
